@@ -46,6 +46,8 @@ template<size_t n, size_t C, int STRAT, int FORM> void run_solve(unsigned seed, 
     TB B; for (size_t i = 0; i < n * c; ++i) B.data()[i] = Rat(r.upto(7) - 3);
     const Tensor<Rat, n, n> A0(A); const TB B0(B);
     Tensor<Rat, n, n> Z; Z.fill(Rat(0)); TB ZB; ZB.fill(Rat(0));
+    const std::string inputs = "A=" + mstr(A0) + " B=" + mstr2<TB, TB>(B0, n, c);
+    VF_TRAP_GUARD(head, inputs.c_str())
     TB X;
     if (FORM == 0) X = solve<ST<STRAT>::v>(A, B);
     else if (FORM == 1) X = solve<ST<STRAT>::v>(A + Z, B);
@@ -59,8 +61,9 @@ template<size_t n, size_t C, int STRAT, int FORM> void run_solve(unsigned seed, 
         if (!(s == B0.data()[i * c + j])) { why = "A*X!=B(" + std::to_string(i) + "," + std::to_string(j) + "):" + s.str() + "vs" + B0.data()[i * c + j].str(); break; }
     }
     int bits = pool_bits();
+    g_trap_armed = 0;
     if (bits > 62) { std::printf("note: %s arithmetic height %d bits: case not judged\n", head, bits); return; }
-    std::printf("%s A=%s B=%s | X=%s ORACLE=%s OOB=0 HBITS=%d\n", head, mstr(A0).c_str(), mstr2<TB, TB>(B0, n, c).c_str(),
+    std::printf("%s %s | X=%s ORACLE=%s OOB=0 HBITS=%d\n", head, inputs.c_str(),
                 mstr2<TB, TB>(X, n, c).c_str(), why.empty() ? "ok" : ("FAIL:" + why).c_str(), bits);
 }
 
@@ -88,12 +91,16 @@ template<size_t n, size_t C> void run_subs(unsigned seed) {
         return std::string("ok");
     };
     int vec = C == 0 ? 1 : 0;
+    char head[160]; std::snprintf(head, sizeof head, "fsub n=%zu c=%zu vec=%d p=- seed=%u", n, c, vec, seed);
+    const std::string inputs = "L=" + mstr(L) + " B=" + mstr2<TB, TB>(B, n, c);
+    VF_TRAP_GUARD(head, inputs.c_str())
     TB X1 = internal::forward_subs(L, B);
     std::printf("fsub n=%zu c=%zu vec=%d p=- seed=%u L=%s B=%s | X=%s ORACLE=%s OOB=0\n", n, c, vec, seed, mstr(L).c_str(), mstr2<TB, TB>(B, n, c).c_str(), mstr2<TB, TB>(X1, n, c).c_str(), check(L, X1, false).c_str());
     TB X2 = internal::forward_subs(L, p, B);
     std::printf("fsub n=%zu c=%zu vec=%d p=%s seed=%u L=%s B=%s | X=%s ORACLE=%s OOB=0\n", n, c, vec, ps.c_str(), seed, mstr(L).c_str(), mstr2<TB, TB>(B, n, c).c_str(), mstr2<TB, TB>(X2, n, c).c_str(), check(L, X2, true).c_str());
     TB X3 = internal::backward_subs(U, B);
     std::printf("bsub n=%zu c=%zu vec=%d seed=%u U=%s B=%s | X=%s ORACLE=%s OOB=0\n", n, c, vec, seed, mstr(U).c_str(), mstr2<TB, TB>(B, n, c).c_str(), mstr2<TB, TB>(X3, n, c).c_str(), check(U, X3, false).c_str());
+    g_trap_armed = 0;
 }
 } // namespace vsl
 using vsl::run_solve; using vsl::run_subs;
